@@ -82,14 +82,16 @@ theorem c04_links_stable_step (cfg : Cfg) (s : St) (e : Ev) (hinv : Inv cfg s) (
       obtain ⟨_, ha, _, hc, _⟩ := step_afterFlush_some (cfg := cfg) hcur
       rw [ha, hc]
       have hlt := committed_lt_cur hinv hx hcur
-      refine ⟨fun a h => mem_addAssoc_of_mem a (hgrow a h), linkedAsOf_congr ?_⟩
+      refine ⟨fun a h => mem_addAssoc_of_mem a (hgrow a h) ?_, linkedAsOf_congr ?_⟩
+      · have := committed_lt_cur hinv (hinv.committed.atxs_in a h) hcur
+        omega
       intro a hle
       constructor
       · intro h
         rcases mem_addAssoc a h with h | h
         · exact h
         · omega
-      · exact mem_addAssoc_of_mem a
+      · exact fun h => mem_addAssoc_of_mem a h (by omega)
   · exact ⟨fun a h => h, rfl⟩
   · refine ⟨fun a h => h, linkedAsOf_congr ?_⟩
     intro a hle
